@@ -1668,6 +1668,9 @@ class Context:
             return VBool(T.MentionI(I.as_int(I.ev(node.args[0], frame))))
         if fn == 'truthy':
             return VBool(I.truthy(I.ev(node.args[0], frame)))
+        if fn == 'ext_value':
+            # ext_value("package.module.Class.CONSTANT"): the external constant the code reads under that dotted name
+            return self.extern_value(self.const_str(I, I.ev(node.args[0], frame)))
         if fn == 'event_raised':
             # did the k-th call of that callee raise (instead of returning)?
             name = self.const_str(I, I.ev(node.args[0], frame))
